@@ -25,6 +25,7 @@ HARNESS = os.path.join(SHIM, "harness")
 SYM_PY = "python3-vt"
 NATIVE_PY = "/venv/bin/python"
 REPLAY = os.path.join(VERIF, "replay", "engineb.py")
+PROBE = os.path.join(VERIF, "replay", "engineb_probe.py")
 PKGS = ("emu_base", "emu_mps", "emu_sv")
 
 
@@ -121,7 +122,8 @@ def run_controls(prop, controls, repo_root, seed, tier):
 
 
 # ------------------------------------------------------------------------------------------
-def native_replay(path, repo_root):
+def native_replay(path, repo_root, script=None):
+    REPLAY = script or globals()["REPLAY"]
     env = dict(os.environ)
     env["PYTHONPATH"] = repo_root
     env["PYTHONDONTWRITEBYTECODE"] = "1"
@@ -198,6 +200,37 @@ def run(spec, tier, seed, repo_root):
         else:
             violations.append((r, path, nat.get("reproduced", False)))
 
+    # ---- undecided cases (a value-dependent decision the shim cannot follow): bounded native search
+    # for a failing input of the same case; an undecided case alone is never a violation
+    probes = []
+    seen_u = set()
+    for r in sorted(unsupported, key=lambda r: json.dumps(_clean(r["case"]), sort_keys=True)):
+        sig = (r["case"]["kind"], r.get("op"))
+        if sig in seen_u and len(probes) >= 3:
+            continue
+        if len(probes) >= 8 or any(p["reproduced"] for p in probes):
+            break
+        seen_u.add(sig)
+        name = f"{prop}__undecided_{r['case']['kind']}_{len(probes)}"
+        path = os.path.join(VERIF, "replays", re.sub(r"[^A-Za-z0-9_.#-]+", "_", name) + ".json")
+        rec = dict(property=prop, engine="symtorch (bounded) left the case undecided; native panel search",
+                   case=_clean(r["case"]), status="undecided", op=r.get("op"), where=r.get("where"),
+                   seed=int(seed), repo_root=repo_root, env=None, native=None)
+        with open(path, "w") as f:
+            json.dump(rec, f, indent=1)
+        nat = native_replay(path, repo_root, script=PROBE)
+        with open(path) as f:
+            rec = json.load(f)
+        rec["native"] = nat
+        rec["reproduced_natively"] = nat.get("reproduced", False)
+        with open(path, "w") as f:
+            json.dump(rec, f, indent=1)
+        probes.append(dict(case=_clean(r["case"]), reproduced=nat.get("reproduced", False), replay=path))
+        if nat.get("reproduced"):
+            r = dict(r, status="mismatch", mismatches=[dict(check="native panel search of an undecided case",
+                                                              detail=nat.get("stdout", "")[-600:])])
+            violations.append((r, path, True))
+
     # ---- controls / shim self-test
     controls = spec["controls"] if tier == "thorough" else [c for c in spec["controls"] if c["name"] in spec["quick_controls"]]
     ctrl = []
@@ -246,6 +279,7 @@ def run(spec, tier, seed, repo_root):
         repo_root=repo_root,
         driver_wall_s=res.get("wall_s"),
         unsupported_ops=sorted({r.get("op", "") for r in unsupported}),
+        undecided_cases_probed_natively=probes,
     )
     ev = dict(property_id=prop, tier=tier, seed=int(seed), level="other", coverage=cov,
               assumptions=spec["assumptions"], wall_s=round(time.time() - t0, 2), violations=len(violations))
